@@ -117,7 +117,20 @@ def main(argv=None):
     if args.limit:
         ncases = min(ncases, args.limit)
     jobs = max(1, min(args.jobs, ncases, meta.get("jobs", args.jobs)))
-    outdir = os.path.join(ROOT, ".work", pid)
+    # evidence-writing runs own .work/<ID>; scratch runs (--no-evidence: sweeps, self-tests) get a directory of their own so
+    # that they can run next to each other and next to an evidence run without clobbering its shard files
+    if getattr(args, "no_evidence", False):
+        import shutil
+
+        for d in os.listdir(os.path.join(ROOT, ".work")) if os.path.isdir(os.path.join(ROOT, ".work")) else []:
+            if d.startswith("scratch-%s-" % pid):
+                try:
+                    os.kill(int(d.rsplit("-", 1)[1]), 0)
+                except (OSError, ValueError):
+                    shutil.rmtree(os.path.join(ROOT, ".work", d), ignore_errors=True)
+        outdir = os.path.join(ROOT, ".work", "scratch-%s-%d" % (pid, os.getpid()))
+    else:
+        outdir = os.path.join(ROOT, ".work", pid)
     os.makedirs(outdir, exist_ok=True)
     for f in os.listdir(outdir):
         os.remove(os.path.join(outdir, f))
